@@ -168,17 +168,17 @@ Section Driver.
     end.
 
   (* find-one-and-modify: the document is selected and projected inside the
-     transaction callback; a failing projection makes the callback return the
-     error (the implicit transaction is then aborted; a session transaction
-     the call was routed to keeps the write) *)
-  Definition project_in_txn (proj : option doc) (after : bool)
+     transaction callback; a failing projection makes the callback revert the
+     transaction to the checkpoint c0 taken before the write and return the
+     error (generated identities stay consumed) *)
+  Definition project_in_txn (proj : option doc) (after : bool) (c0 : catalog)
              (x : catalog * gen * (tresult + ekind)) : catalog * gen * (reply + ekind) :=
     let '(c', g', r) := x in
     match r with
     | inr e => (c', g', inr e)
     | inl tr =>
         match reply_doc proj (pick_doc tr after) with
-        | RErr e => (c', g', inr e)
+        | RErr e => (c0, g', inr e)
         | rp => (c', g', inl rp)
         end
     end.
@@ -287,17 +287,17 @@ Section Driver.
         (ds', match r with inr e => RErr e | inl tr => RDelete (len (t_matched tr)) end)
     | CFindOneAndUpdate sid h q u sort proj upsert after afs =>
         let '(ds', r) := use_write ds sid (fun cat g =>
-            project_in_txn proj after (txn_update matchf applyf extractf cat g h q sort u 0 1 upsert afs now)) in
+            project_in_txn proj after cat (txn_update matchf applyf extractf cat g h q sort u 0 1 upsert afs now)) in
         (ds', match r with inr e => RErr e | inl rp => rp end)
     | CFindOneAndReplace sid h q repl sort proj upsert after =>
         if first_key_dollar repl then (ds, RErr EErr)
         else
           let '(ds', r) := use_write ds sid (fun cat g =>
-              project_in_txn proj after (txn_replace matchf applyf extractf cat g h q sort repl upsert now)) in
+              project_in_txn proj after cat (txn_replace matchf applyf extractf cat g h q sort repl upsert now)) in
           (ds', match r with inr e => RErr e | inl rp => rp end)
     | CFindOneAndDelete sid h q sort proj =>
         let '(ds', r) := use_write ds sid (fun cat g =>
-            project_in_txn proj false (txn_delete matchf cat g h q sort 0 1)) in
+            project_in_txn proj false cat (txn_delete matchf cat g h q sort 0 1)) in
         (ds', match r with inr e => RErr e | inl rp => rp end)
     | CBulk sid h ops ordered =>
         if existsb (fun op => match op with BReplace _ rp _ _ => first_key_dollar rp | _ => false end) ops
